@@ -673,9 +673,17 @@ int main(int argc, char** argv) {
     m7.chunk = 256;
     m7.group = "M7";
     m7.rule = "lengths {512,1024,2048,4096}+-1 with the first difference at every position (and none); {16384,65536}+-1 with it within 300 bytes of either end and at positions congruent to 0,1,31..33,63..65,95..97,127 mod 128; a later opposite difference 70 bytes on";
-    fams = {m1, m2, m3, m4, m5, m6, m7};
+    // M8: ALIASED keys. Member names and lookup keys are slices of ONE caller buffer (constant keys are not copied),
+    // so a lookup key may start at the very address of a stored name and differ from it only in length
+    vr::Family m8;
+    m8.name = "M8_aliased_key_slices";
+    m8.count = 16 * 16 * 2;
+    m8.group = "M8";
+    m8.chunk = 8;
+    m8.rule = "objects whose 5 member names are slices [s, s+l) of one 48-byte buffer of distinct bytes (three of them start at the same address s0 with lengths l0 < l1 < l2, for every s0 in 0..15 and l0 in 1..16), added as constant or copied keys; every slice [s', s'+l') with s' in {s0, s0+1, other start} and l' in 0..l2+2 is looked up through FindMember(view), FindMember(ptr,len), HasMember, operator[] and the node's own name views, with and without the lookup map: found exactly when start and length both agree";
+    fams = {m1, m2, m3, m4, m5, m6, m7, m8};
 #ifdef SONIC_DYNAMIC_DISPATCH
-    fams = {m3, m5};
+    fams = {m3, m5, m8};
 #endif
     check = [&, NL, NE, NP](const vr::Family& f, uint64_t idx, vr::Ctx& ctx) {
       auto build = [&](unsigned len, unsigned diff, unsigned pi, uint8_t* a, uint8_t* b) {
@@ -840,6 +848,69 @@ int main(int argc, char** argv) {
         (void)idx;
         ctx.skip();
 #endif
+        return;
+      }
+      if (f.name[1] == '8') {
+        const bool copy = idx & 1;
+        idx >>= 1;
+        const unsigned l0 = (unsigned)(idx % 16) + 1, s0 = (unsigned)(idx / 16);
+        static char buf[64];
+        for (unsigned i = 0; i < sizeof buf; i++) buf[i] = (char)('!' + i);  // all bytes distinct: two slices are equal iff start and length agree
+        const unsigned l1 = l0 + 3, l2 = l0 + 8, s1 = s0 + 17;
+        struct Sl {
+          unsigned s, l;
+        };
+        const Sl names[5] = {{s0, l1}, {s1, l0}, {s0, l0}, {s0, l2}, {s1, l1}};
+        ctx.eval();
+        ctx.nontriv();
+        if (ctx.want_sample) ctx.sample("s0=" + std::to_string(s0) + " l0=" + std::to_string(l0) + (copy ? " copied keys" : " constant keys"));
+        Document doc;
+        auto& al = doc.GetAllocator();
+        doc.SetObject();
+        for (int j = 0; j < 5; j++) doc.AddMember(StringView(buf + names[j].s, names[j].l), Node((int64_t)j), al, copy);
+        for (int pass = 0; pass < 2; pass++) {
+          if (pass == 1) doc.CreateMap(al);
+          for (unsigned ps : {s0, s0 + 1, s1}) {
+            for (unsigned pl = 0; pl <= l2 + 2; pl++) {
+              int ex = -1;
+              for (int j = 0; j < 5; j++)
+                if (names[j].s == ps && names[j].l == pl) ex = j;
+              if (pl == 0) ex = -1;
+              // (a) the probe is a slice of the caller's buffer: for constant keys it may start at a stored name's address
+              StringView pv(buf + ps, pl);
+              auto it1 = doc.FindMember(pv);
+              auto it2 = doc.FindMember(buf + ps, pl);
+              bool has = doc.HasMember(pv);
+              int g1 = it1 == doc.MemberEnd() ? -1 : (int)(it1 - doc.MemberBegin());
+              int g2 = it2 == doc.MemberEnd() ? -1 : (int)(it2 - doc.MemberBegin());
+              const Node& v = static_cast<const Document&>(doc)[pv];
+              bool vok = ex < 0 ? v.IsNull() : (v.IsInt64() && v.GetInt64() == ex);
+              if (g1 != ex || g2 != ex || has != (ex >= 0) || !vok) {
+                ctx.violation("findmember", pass ? "findmember_map_aliased_key" : "findmember_linear_aliased_key", std::string(buf + ps, pl), "s0=%u l0=%u %s keys pass=%d, key = buffer[%u,+%u): FindMember(view)->%d FindMember(ptr,len)->%d HasMember=%d operator[] %s; expected member %d",
+                              s0, l0, copy ? "copied" : "constant", pass, ps, pl, g1, g2, (int)has, vok ? "ok" : "wrong", ex);
+                return;
+              }
+            }
+          }
+          // (b) prefixes of every member's OWN stored name view
+          for (int j = 0; j < 5; j++) {
+            StringView own = (doc.MemberBegin() + j)->name.GetStringView();
+            for (size_t pl = 1; pl < own.size(); pl++) {
+              int ex = -1;
+              for (int k = 0; k < 5; k++)
+                if (names[k].s == names[j].s && names[k].l == pl) ex = k;
+              auto it1 = doc.FindMember(StringView(own.data(), pl));
+              auto it2 = doc.FindMember(own.data(), pl);
+              int g1 = it1 == doc.MemberEnd() ? -1 : (int)(it1 - doc.MemberBegin());
+              int g2 = it2 == doc.MemberEnd() ? -1 : (int)(it2 - doc.MemberBegin());
+              if (g1 != ex || g2 != ex) {
+                ctx.violation("findmember", pass ? "findmember_map_aliased_key" : "findmember_linear_aliased_key", std::string(own.data(), pl), "s0=%u l0=%u %s keys pass=%d, key = first %zu bytes of member %d's own name view: FindMember(view)->%d FindMember(ptr,len)->%d expected %d",
+                              s0, l0, copy ? "copied" : "constant", pass, pl, j, g1, g2, ex);
+                return;
+              }
+            }
+          }
+        }
         return;
       }
       if (f.name[1] == '5') {
